@@ -802,7 +802,9 @@ func (e *CoreExtension) functionDump(args ...interface{}) (interface{}, error) {
 		if i > 0 {
 			result.WriteString(", ")
 		}
-		result.WriteString(fmt.Sprintf("%#v", arg))
+		// (not %#v: it prints memory addresses and does not end on a value
+		// that contains itself)
+		result.WriteString(stableString(arg))
 	}
 
 	return result.String(), nil
@@ -2434,8 +2436,23 @@ func (e *CoreExtension) filterFormat(value interface{}, args ...interface{}) (in
 		return formatString, nil
 	}
 
-	// Apply formatting
-	return fmt.Sprintf(formatString, args...), nil
+	// Apply formatting; composite values are handed over as their stable text
+	// (fmt would print addresses for pointers and recurse forever on a value
+	// that contains itself)
+	safe := make([]interface{}, len(args))
+	for i, arg := range args {
+		if _, isBytes := arg.([]byte); isBytes {
+			safe[i] = arg
+			continue
+		}
+		switch reflect.ValueOf(arg).Kind() {
+		case reflect.Ptr, reflect.Map, reflect.Slice, reflect.Array, reflect.Struct, reflect.Func, reflect.Chan, reflect.UnsafePointer, reflect.Interface:
+			safe[i] = stableString(arg)
+		default:
+			safe[i] = arg
+		}
+	}
+	return fmt.Sprintf(formatString, safe...), nil
 }
 
 // filterJsonEncode implements a filter version of the json_encode function
@@ -2478,7 +2495,7 @@ func (e *CoreExtension) filterSpaceless(value interface{}, args ...interface{}) 
 	}
 
 	// Convert to string if not already
-	str := fmt.Sprintf("%v", value)
+	str := toString(value)
 	if str == "" {
 		return "", nil
 	}
